@@ -581,6 +581,20 @@ func typedScript(r *rand.Rand, kind string) []ResultSet {
 	case 1:
 		rs.FailAfter = r.Intn(n + 1)
 	}
+	if kind == "prom_samples" {
+		// the labels of the selected fingerprints are fetched by a second statement (labelsGetter.Fetch)
+		ls := ResultSet{Match: "JSONExtractKeysAndValues", Cols: 2, FailAfter: -1}
+		for fp := 1; fp <= 1+n/50; fp++ {
+			ls.Rows = append(ls.Rows, []Cell{{U: u64(uint64(fp))}, {LL: [][]string{{"__name__", "up"}, {"job", fmt.Sprintf("j%d", fp)}}}})
+		}
+		switch r.Intn(12) {
+		case 0:
+			ls.QueryErr = true
+		case 1:
+			ls.Rows = append(ls.Rows, []Cell{{U: u64(9)}, {S: str("not an array")}})
+		}
+		return []ResultSet{ls, rs}
+	}
 	if kind == "traceql" {
 		// the complexity estimate is asked first (one integer column); above 10M the request is split by time
 		cx := ResultSet{Match: "_count", Cols: 1, FailAfter: -1}
@@ -683,9 +697,20 @@ func testCase(r *rand.Rand, id int) *Case {
 		c.Params = append(c.Params, KV{"step", step})
 		c.Class = "test/prom_range/" + qk
 		c.Script = typedScript(r, "prom_samples")
+		if r.Intn(4) == 0 {
+			// wide window x small step: more than 11,000 points must be refused, a wide window with a large step served
+			c.Class = "test/prom_range_wide/" + qk
+			c.Params = []KV{{"query", q}, {"start", []string{"0", "-1700000000", "1"}[r.Intn(3)]}, {"end", fmt.Sprint(baseSec + 300)},
+				{"step", []string{"1", "0.001", "15", "154546", "200000", "1000d"}[r.Intn(6)]}}
+		}
 	case 7:
 		c.Class = "test/prom_instant/" + qk
 		c.Path = "/api/v1/query"
+		if r.Intn(5) == 0 {
+			// subqueries / ranges over a wide window with a small resolution: bounded by the engine's sample limit and timeout
+			q, qk = []string{`count_over_time(up[10d:1s])`, `max_over_time(rate(up[1m])[1000d:1m])`, `sum(count_over_time(up[100y]))`, `up[30d:1s]`, `up[30d:1ms]` /* recorded finding promql-subquery-steps-unbounded */}[r.Intn(5)], "wide"
+			c.Class = "test/prom_instant_wide"
+		}
 		add("query", q)
 		add("time", oddNum(r, baseSec))
 		c.Script = typedScript(r, "prom_samples")
